@@ -258,6 +258,22 @@ fn run_cnf_pipeline(case: &str, st: &mut Stats) -> Outcome {
         // BDD compilation (consumes the order and a CNF)
         let bb = robdd_builder_all_table(o1);
         let bd = robdd_builder_compile_cnf(bb, mk_cnf());
+        // the manager must use exactly the order it was given: same shape as a native builder
+        // over the same order
+        {
+            use rsdd::builder::bdd::RobddBuilder;
+            use rsdd::builder::cache::AllIteTable;
+            let nbld: RobddBuilder<AllIteTable<BddPtr>> = RobddBuilder::new(match okind {
+                0 => VarOrder::linear_order(cnv),
+                1 => native_cnf.min_fill_order(),
+                _ => VarOrder::new(&perm.iter().cloned().filter(|v| (*v as usize) < cnv).map(VarLabel::new).collect::<Vec<_>>()),
+            });
+            let nd = nbld.compile_cnf(&native_cnf);
+            let (mut cu, mut nu) = (String::new(), String::new());
+            c_unfold(bd, &mut cu, &mut |_, _, _| {});
+            n_unfold(nd, &mut nu);
+            if cu != nu { fails.push(format!("robdd_builder_compile_cnf on a manager from order kind {okind} gives the diagram {cu}, a native builder over the same order gives {nu}")); }
+        }
         let btab: Vec<bool> = (0..(1usize << nv)).map(|a| c_eval(bd, a)).collect();
         if btab != tt { fails.push("robdd_builder_compile_cnf: the diagram read through the C accessors denotes a different function than the CNF".to_string()); }
         // model counts on a manager whose order is not the identity: the compiled diagram, its
@@ -458,6 +474,22 @@ pub fn run(case: &str, st: &mut Stats) -> Outcome {
                 if s0 != d || s1 != 1000 + k || s2 != d {
                     fails.push(format!("entry {k}: bdd_scratch/set/clear give {s0}, {s1}, {s2}; expected {d}, {}, {d}", 1000 + k));
                 }
+            }
+            // a mark set through the C API on a child must be what the native mark is to
+            // count_nodes (which skips nodes already marked with a usize): same count both ways
+            if !n.is_const() && !n.low_raw().is_const() {
+                let cl = bdd_low(c);
+                bdd_set_scratch(cl, 5);
+                let cc = bdd_count_nodes(c);
+                bdd_clear_scratch(cl);
+                bdd_clear_scratch(c);
+                let nl = n.low();
+                nl.set_scratch::<usize>(5);
+                let nc = n.count_nodes();
+                nl.clear_scratch();
+                n.clear_scratch();
+                if cc != nc { fails.push(format!("entry {k}: bdd_count_nodes after bdd_set_scratch on the low child = {cc}, the native calls give {nc}")); }
+                drop(Box::from_raw(cl as *mut BddPtr<'static>));
             }
             // print_bdd is the native printer's text
             let ptxt = CStr::from_ptr(print_bdd(c)).to_str().unwrap().to_string();
